@@ -501,12 +501,17 @@ Definition set_conns {E F} (s : hst E F) (cs : list hconn) (t : list (Z * nat)) 
   mkH (hs_interval s) (hs_timeout s) (hs_now s) (hs_next s) (hs_tick s) (hs_cl s) cs t
       (hs_reqs s) (hs_rds s) (hs_wrs s) crashed (hs_log s ++ evs).
 
-(* unregisterLocked: close(conn.done), delete from the table *)
-Definition h_close {E F} (s : hst E F) (c : nat) : hst E F :=
-  match nth_error (hs_conns s) c with
-  | Some k =>
-      set_conns s (upd c (mkConn (c_addr k) (c_last k) true) (hs_conns s)) (tbl_remove (c_addr k) (hs_tbl s))
-                (hs_crashed s || c_closed k) [HEvRemoved c]
+(* unregisterLocked(id): close the done channel of the connection registered
+   under the address (if any), delete the address from the table *)
+Definition h_close_addr {E F} (s : hst E F) (a : Z) : hst E F :=
+  match tbl_lookup a (hs_tbl s) with
+  | Some c =>
+      match nth_error (hs_conns s) c with
+      | Some k =>
+          set_conns s (upd c (mkConn (c_addr k) (c_last k) true) (hs_conns s)) (tbl_remove a (hs_tbl s))
+                    (hs_crashed s || c_closed k) [HEvRemoved c]
+      | None => s
+      end
   | None => s
   end.
 
@@ -515,7 +520,7 @@ Definition h_unregister {E F} (s : hst E F) (c : nat) : hst E F :=
   match nth_error (hs_conns s) c with
   | Some k =>
       match tbl_lookup (c_addr k) (hs_tbl s) with
-      | Some c' => if Nat.eqb c c' then h_close s c else s
+      | Some c' => if Nat.eqb c c' then h_close_addr s (c_addr k) else s
       | None => s
       end
   | None => s
@@ -669,7 +674,7 @@ Definition h_clean {E F} (s : hst E F) : option (hst E F) :=
       if hs_tick s then
         let s0 := set_clock s (hs_now s) (hs_next s) false (hs_cl s) in
         Some (fold_left (fun st p => match nth_error (hs_conns st) (snd p) with
-                                     | Some k => if idle st k then h_close st (snd p) else st
+                                     | Some k => if idle st k then h_close_addr st (c_addr k) else st
                                      | None => st
                                      end) (hs_tbl s) s0)
       else None
